@@ -281,6 +281,25 @@ def run(ctx):
             if dev > 1e-9 or pre > 1e-9 * 3e-6:
                 ctx.violation({'kind': 'values-outside-the-mask-leak-into-the-aperture', 'route': route, 'upscale': s_ > 1},
                               {'n': n_, 'scale': s_, 'max_opd_error_inside_the_new_mask_relative': dev}, case=None)
+    # a segmented plane with exactly ONE segment (a mask cube of depth 1) is rescaled like the monolithic plane with that mask: 2-D
+    # amplitude and OPD of ceil(n*s) samples, one segment, the same product with a wavefront
+    for n_, s_ in ((32, 1.5), (33, 2), (24, 0.75)):
+        mk2 = lentil.circle((n_, n_), 0.4 * n_, antialias=False)
+        rr_, cc_ = lentil.helper.mesh((n_, n_))
+        kw_ = dict(amplitude=np.exp(-(rr_ ** 2 + cc_ ** 2) / (2 * (n_ / 4) ** 2)), opd=1e-7 * (rr_ / n_) ** 2, pixelscale=1.0 / n_, focal_length=10.0)
+        nleaf += 1
+        ctx.case(('depth-1-cube', n_, s_))
+        try:
+            pc = lentil.Pupil(mask=mk2[np.newaxis, ...], **kw_).rescale(s_)
+            pm = lentil.Pupil(mask=mk2, **kw_).rescale(s_)
+            want = (int(np.ceil(n_ * s_)),) * 2
+            fc, fm = (lentil.Wavefront(1e-6) * pc).field, (lentil.Wavefront(1e-6) * pm).field
+            ok = np.shape(pc.amplitude) == want and np.shape(pc.opd) == want and pc.mask.shape == (1,) + want and np.allclose(fc, fm, rtol=1e-12, atol=1e-14)
+            err = None
+        except Exception as ex:
+            ok, err = False, repr(ex)[:200]
+        if not ok:
+            ctx.violation({'kind': 'depth-1-segment-cube', 'upscale': s_ > 1}, {'n': n_, 'scale': s_, 'error': err}, case=None)
     # an aperture that FILLS its array: every new sample lies within the footprint of the old array (old coordinates -1/2 .. n-1/2), so
     # the new mask is ones everywhere, as the amplitude is - the transmitted power is that of the old plane
     for shape_, s_ in (((65, 65), 3), ((64, 64), 1.5), ((63, 97), 3), ((48, 65), 2.5)):
